@@ -32,6 +32,18 @@ unsafe impl ImageView for MyView {
     }
 }
 
+/// a user-defined RGBA view whose rows are longer than its width (a strided buffer handed out
+/// row by row): allowed by the documented contract "equal or greater than the image width"
+struct Strided { w: u32, h: u32, stride: usize, px: Vec<U8x4> }
+unsafe impl ImageView for Strided {
+    type Pixel = U8x4;
+    fn width(&self) -> u32 { self.w }
+    fn height(&self) -> u32 { self.h }
+    fn iter_rows(&self, start_row: u32) -> impl Iterator<Item = &[U8x4]> {
+        self.px.chunks_exact(self.stride).skip(start_row as usize).take((self.h.saturating_sub(start_row)) as usize)
+    }
+}
+
 fn main() {
     let case = std::env::args().nth(1).unwrap_or_else(|| "all".into());
     let all = case == "all";
@@ -131,6 +143,28 @@ fn main() {
             let mut r = Resizer::new();
             let o = ResizeOptions::new().resize_alg(ResizeAlg::Nearest).fit_into_destination(Some((1.0, 1.0)));
             println!("fit {sw}x{sh} -> {dw}x{dh} centering (1,1): {:?}", r.resize(&src, &mut dst, &o));
+        }
+    }
+    if want("alpha-long-rows") {
+        // two-image alpha multiplication from a view whose rows are longer than its width:
+        // the SIMD rows pair the remainder of the *source row* with the remainder of the destination row
+        let (w, h, stride) = (6u32, 2u32, 9usize);
+        let px: Vec<U8x4> = (0..stride * h as usize).map(|i| U8x4::new([200, 100, 50, (20 + 23 * i) as u8])).collect();
+        let src = Strided { w, h, stride, px: px.clone() };
+        let mut exact = TypedImage::<U8x4>::new(w, h);
+        for (y, row) in exact.iter_rows_mut(0).enumerate() {
+            row.copy_from_slice(&px[y * stride..y * stride + w as usize]);
+        }
+        for ext in [CpuExtensions::None, CpuExtensions::Sse4_1, CpuExtensions::Avx2] {
+            if !ext.is_supported() { continue; }
+            let mut md = MulDiv::default();
+            unsafe { md.set_cpu_extensions(ext) };
+            let mut a = TypedImage::<U8x4>::new(w, h);
+            let mut b = TypedImage::<U8x4>::new(w, h);
+            md.multiply_alpha_typed(&src, &mut a).unwrap();
+            md.multiply_alpha_typed(&exact, &mut b).unwrap();
+            let diff = a.pixels().iter().zip(b.pixels()).filter(|(x, y)| x.0 != y.0).count();
+            println!("multiply_alpha_typed {ext:?}: {diff} of {} pixels differ between the strided view and an exact copy", w * h);
         }
     }
     if want("oversized-dst") {
